@@ -2,7 +2,7 @@
 import ast
 from sa.index import AnalysisError, FuncInfo
 from sa.paths import call_name
-from rules.common import txt, paths_of, loc, tests_on, Quiet
+from rules.common import list_delegation, txt, paths_of, loc, tests_on, Quiet
 from rules import onepass
 
 M = 'iterutils'
@@ -60,15 +60,10 @@ def run(ctx):
     prog = ctx.program
     for lst, it, _ in DELEG:
         f, g = prog.func('%s.%s' % (M, lst)), prog.func('%s.%s' % (M, it))
-        rets = [n for n in ast.walk(f.node) if isinstance(n, ast.Return)]
-        ok = False
-        det = ''
-        if len(rets) == 1 and isinstance(rets[0].value, ast.Call) and call_name(rets[0].value) == 'list' and len(rets[0].value.args) == 1:
-            inner = rets[0].value.args[0]
-            if isinstance(inner, ast.Call) and call_name(inner) == it:
-                got = bound_args(inner, g)
-                ok = got == {p: p for p in g.params if p in f.params} and set(g.params) <= set(f.params)
-                det = str(got)
+        dl = list_delegation(prog, f, g)
+        ok = bool(dl) and all(got is not None and got == {p: p for p in g.params if p in f.params} for got, _ in dl) and \
+            set(g.params) <= set(f.params)
+        det = str([got for got, _ in dl][:2])
         ctx.ob('T17', f.fq, '%s(args) is list(%s(same args))' % (lst, it), ok, loc=f.loc, detail=det)
     # chunked
     f, g = prog.func(M + '.chunked'), prog.func(M + '.chunked_iter')
@@ -98,6 +93,19 @@ def run(ctx):
                         ('windowed_iter', 'src'), ('unique_iter', 'src'), ('redundant', 'src'), ('bucketize', 'src')):
         onepass.check(ctx, prog.func('%s.%s' % (M, name)), param)
     onepass.first_seen(ctx, prog.func(M + '.unique_iter'))
+    # sibling agreement: the string form of `key` is resolved alike in every helper that accepts it: an element lacking the
+    # attribute stands for itself (a constant fallback would merge all such elements into one key)
+    n_ga = 0
+    for fname, f in sorted(prog.module(M).functions.items()):
+        if 'key' not in f.params:
+            continue
+        for n in ast.walk(f.node):
+            if isinstance(n, ast.Call) and call_name(n) == 'getattr' and len(n.args) == 3 and txt(n.args[1]) == 'key':
+                n_ga += 1
+                ctx.ob('T25.keyattr', f.fq, 'an element without the attribute named by `key` is keyed by itself (as in the sibling helpers)',
+                       txt(n.args[2]) == txt(n.args[0]), loc=loc(f, n), detail=txt(n))
+    if n_ga < 2:
+        ctx.unknown('T25.keyattr', M, 'fewer than two getattr(x, key, <fallback>) sites found (%d)' % n_ga, 'boltons/iterutils.py')
     from rules.common import check_get_none_presence
     for name in ('redundant', 'unique_iter', 'bucketize'):
         check_get_none_presence(ctx, prog.func('%s.%s' % (M, name)))
